@@ -40,6 +40,12 @@ def explain (cat : List CheckInfo) (key : String × Nat) : ExplainResult :=
   | some c => if c.docIsDefault then .noDoc else .found c
   | none => .notFound
 
+/-- the first line `explain` prints for a documented check: `f"{error_code}: {name} {categories}"` with
+    `categories = " ".join(f"[{x}]" for x in error.categories)` and `<name unknown>` for a check without a name -/
+def CheckInfo.explainHeader (c : CheckInfo) : String :=
+  c.pfx ++ toString c.code ++ ": " ++ (if c.hasName then c.name else "<name unknown>") ++ " "
+    ++ " ".intercalate (c.categories.map (fun x => "[" ++ x ++ "]"))
+
 /-- One parsed entry of docs/checks.md. -/
 structure DocEntry where
   code : String
